@@ -164,6 +164,7 @@ Proof.
   destruct (dn_room n) as [rid|] eqn:Hr; [|reflexivity].
   unfold validate_deletion. cbn [validate_dnodes validate_dupd validate_dedges]. rewrite Hk, Hr, Hd.
   unfold ndel_ok, lookup_node, row_of. cbn [nd_ent nd_room nd_id nd_author nd_date s_nodes find n_id n_author]. rewrite N.eqb_refl.
+  cbn [n_author].
   destruct (find_room (build_rooms defs) rid) as [r|] eqn:Er.
   - pose proof (check_del_ok_iff me now (build_rooms defs) (dn_ent n) rid (dn_author n) r Er) as Hiff.
     destruct (check_del me now (build_rooms defs) KNormal (dn_ent n) (Some rid) (dn_author n) now) eqn:Hc; cbn [verdict_code Z.eqb].
@@ -200,9 +201,9 @@ Proof.
       destruct (can r me (dn_ent src) now (needed (N.eqb ea me))) eqn:Ce.
       * rewrite (proj2 He eq_refl). reflexivity.
       * destruct (check_del me now (build_rooms defs) KNormal (dn_ent src) (Some rid) ea now) eqn:Hc; try reflexivity.
-        apply He in Hc. discriminate.
+        pose proof (proj1 He eq_refl) as X. discriminate X.
     + destruct (check_del me now (build_rooms defs) KNormal (dn_ent src) (Some rid) (dn_author src) now) eqn:Hc.
-      * apply Hn in Hc. discriminate.
+      * pose proof (proj1 Hn eq_refl) as X. discriminate X.
       * cbn [verdict_code Z.eqb]. destruct (can r me _ _ (needed (N.eqb ea me))); reflexivity.
       * cbn [verdict_code Z.eqb]. destruct (can r me _ _ (needed (N.eqb ea me))); reflexivity.
       * cbn [verdict_code Z.eqb]. destruct (can r me _ _ (needed (N.eqb ea me))); reflexivity.
